@@ -22,6 +22,7 @@ type c04Case struct {
 	script   []string // per second-phase attempt
 	cancelAt int      // -1 none; k = cancelled before attempt k
 	name     string
+	inner    string // a nested scope the business runs (and whose failure it tolerates) before it ends: see innerScopes
 
 	mu       sync.Mutex
 	xid      string
@@ -120,6 +121,15 @@ func runC04(c *Ctx) {
 		}
 	}
 
+	// a nested scope inside the business must not change what the launcher decides and sends for its own
+	// transaction (the model's prediction is the one of the plain case)
+	for _, inner := range innerScopes {
+		for _, cb := range []string{"nil", "err", "panic"} {
+			add(&c04Case{retries: 2, begin: "ok", cb: cb, script: []string{"ok"}, cancelAt: -1, inner: inner})
+			add(&c04Case{retries: 2, begin: "ok", cb: cb, script: []string{"transport", "ok"}, cancelAt: -1, inner: inner})
+		}
+	}
+
 	byName := map[string]*c04Case{}
 	byXid := map[string]*c04Case{}
 	var mapMu sync.Mutex
@@ -132,6 +142,9 @@ func runC04(c *Ctx) {
 			mapMu.Lock()
 			k := byName[b.TransactionName]
 			mapMu.Unlock()
+			if strings.HasSuffix(b.TransactionName, "-innerfail") {
+				return Action{Body: message.GlobalBeginResponse{AbstractTransactionResponse: failHead("refused")}}
+			}
 			if k == nil {
 				return Action{}
 			}
@@ -249,14 +262,34 @@ func runC04(c *Ctx) {
 	defer func() { coord.Script = nil }()
 
 	// run one retry setting at a time (the retry counts are process-global TM configuration)
+	// the count under test is the one the case uses (commit count when the callback returns nil, rollback
+	// count otherwise); the other count is set to something else, so that a loop reading the wrong one shows
+	type pass struct {
+		r      int
+		commit bool
+	}
+	var passes []pass
 	for _, r := range retrySettings {
-		tm.InitTm(tm.TmConfig{CommitRetryCount: r, RollbackRetryCount: r, DefaultGlobalTransactionTimeout: 60 * time.Second})
+		passes = append(passes, pass{r, true}, pass{r, false})
+	}
+	for _, ps := range passes {
+		r := ps.r
+		other := r + 2
+		if r >= 3 {
+			other = 1
+		}
+		inPass := func(k *c04Case) bool { return k.retries == r && (k.cb == "nil") == ps.commit }
+		if ps.commit {
+			tm.InitTm(tm.TmConfig{CommitRetryCount: r, RollbackRetryCount: other, DefaultGlobalTransactionTimeout: 60 * time.Second})
+		} else {
+			tm.InitTm(tm.TmConfig{CommitRetryCount: other, RollbackRetryCount: r, DefaultGlobalTransactionTimeout: 60 * time.Second})
+		}
 		var wg sync.WaitGroup
 		sem := make(chan struct{}, 64)
 		results := map[string]string{}
 		var rmu sync.Mutex
 		for _, k := range cases {
-			if k.retries != r {
+			if !inPass(k) {
 				continue
 			}
 			k := k
@@ -284,6 +317,7 @@ func runC04(c *Ctx) {
 						if k.cancelAt == 0 {
 							cancel()
 						}
+						runInnerScope(ctx, k)
 						switch k.cb {
 						case "err":
 							return errors.New("business failed")
@@ -307,7 +341,7 @@ func runC04(c *Ctx) {
 		wg.Wait()
 		log := coord.Snapshot()
 		for _, k := range cases {
-			if k.retries != r {
+			if !inPass(k) {
 				continue
 			}
 			var reqs []string
@@ -415,4 +449,38 @@ func min(a, b int) int {
 		return a
 	}
 	return b
+}
+
+// nested scopes a business may run on the launcher's context; whatever becomes of them, the launcher's own
+// transaction is decided and finished as if they had not been there
+var innerScopes = []string{"requiresnew-beginfails", "requiresnew-ok", "never", "required-joins", "required-joins-fails", "notsupported"}
+
+func runInnerScope(ctx context.Context, k *c04Case) {
+	if k.inner == "" {
+		return
+	}
+	gc := &tm.GtxConfig{Name: k.name + "-inner", Timeout: 30 * time.Second}
+	fail := false
+	switch k.inner {
+	case "requiresnew-beginfails":
+		gc.Propagation, gc.Name = tm.RequiresNew, k.name+"-innerfail"
+	case "requiresnew-ok":
+		gc.Propagation = tm.RequiresNew
+	case "never":
+		gc.Propagation = tm.Never
+	case "required-joins":
+		gc.Propagation = tm.Required
+	case "required-joins-fails":
+		gc.Propagation, fail = tm.Required, true
+	case "notsupported":
+		gc.Propagation = tm.NotSupported
+	}
+	safeCall(func() {
+		tm.WithGlobalTx(ctx, gc, func(context.Context) error {
+			if fail {
+				return errors.New("inner business failed")
+			}
+			return nil
+		})
+	})
 }
